@@ -184,6 +184,15 @@ def plain(v):
     return v
 
 
+# parameters after the receiver: (name, is a lambda) - from the `:signature:` lines of the docstrings
+KEYWORD_PARAMS = {
+    'select': [('selector', True)], 'where': [('predicate', True)], 'selectMany': [('selector', True)],
+    'orderBy': [('selector', True)], 'orderByDescending': [('selector', True)], 'takeWhile': [('predicate', True)],
+    'skipWhile': [('predicate', True)], 'indexWhere': [('predicate', True)],
+    'toDict': [('keySelector', True), ('valueSelector', True)], 'aggregate': [('selector', True), ('seed', False)],
+    'sum': [('initial', False)], 'first': [('default', False)], 'take': [('count', False)], 'skip': [('count', False)],
+    'any': [('predicate', True)], 'all': [('predicate', True)],
+}
 METHODS = {'unpack', 'select', 'where', 'selectMany', 'orderBy', 'orderByDescending', 'takeWhile', 'skipWhile',
            'indexWhere', 'toDict', 'aggregate', 'sum', 'first', 'toList', 'take', 'skip', 'get', 'len', 'any', 'all'}
 FUNCTIONS = {'let', 'with', 'def', 'list', 'dict', 'len', 'any', 'all'}
@@ -197,8 +206,20 @@ class Interp:
         self.def_key = fn_key_as_implemented if def_as_implemented else fn_key
 
     # ------------------------------------------------------------ entry
-    def run(self, doc, e):
-        root = Ctx(None, {'$1': doc})
+    def run(self, doc, e, env=None):
+        """env (harness/evalgen.py: gen_host_env): the host's own context chain - `layers` of variables from the root
+        upwards, the document bound as `$` above the first `at` of them ("named variables resolve through the enclosing
+        scopes": wherever the host bound something, the program sees it unless something nearer shadows it)"""
+        if env is None:
+            root = Ctx(None, {'$1': doc})
+        else:
+            root = None
+            layers = list(env['layers'])
+            for i in range(len(layers) + 1):
+                if i == env['at']:
+                    root = Ctx(root, {'$1': doc})
+                if i < len(layers):
+                    root = Ctx(root, {norm(n): v for n, v in layers[i]})
         return self.finalise(self.ev(e, root))
 
     def finalise(self, v):
@@ -209,13 +230,18 @@ class Interp:
 
     def fin(self, v, key=False):
         if isinstance(v, (tuple, Lazy)):
-            if key:
+            items = [self.fin(x) for x in v]          # (a lazy key is consumed - and may raise - before the list it
+            if key:                                   # becomes turns out to be no dictionary key)
                 raise TypeError('unhashable list')
-            return [self.fin(x) for x in v]
+            return items
         if isinstance(v, FD):
             if key:
                 raise TypeError('unhashable dict')
-            return {self.fin(k, True): self.fin(x) for k, x in v.d.items()}
+            out = {}
+            for k, x in v.d.items():
+                val = self.fin(x)           # `result[rec(key)] = rec(value)`: the value is converted first
+                out[self.fin(k, True)] = val
+            return out
         if isinstance(v, Ctx):
             raise OOD('context inside data')
         return v
@@ -256,12 +282,40 @@ class Interp:
             return self.call(e[1], e[2], e[3], c)
         if t == 'method':
             recv = self.ev(e[1], c)
+            args = e[3]
             if e[4]:
-                raise OOD('keyword arguments of a method')
+                if fn_key(e[2]) not in METHODS:
+                    raise NoMethodRegisteredException(e[2])
+                args = self.by_keyword(fn_key(e[2]), e[3], e[4])
             if fn_key(e[2]) not in METHODS:
                 raise NoMethodRegisteredException(e[2])
-            return self.method(fn_key(e[2]), recv, e[3], c, NoMatchingMethodException)
+            return self.method(fn_key(e[2]), recv, args, c, NoMatchingMethodException)
         raise OOD('unknown node %r' % (t,))
+
+    def by_keyword(self, f, args, kw):
+        """"`name => value` passes the argument to the parameter of that name": the positional argument list that
+        says the same (signatures as the docstrings give them: `collection.toDict(keySelector, valueSelector => null)`,
+        `collection.aggregate(selector, seed => NoValue)` ..).  A lambda stays a lambda however it is passed."""
+        params = KEYWORD_PARAMS.get(f)
+        if params is None:
+            raise OOD('keyword arguments of ' + f)
+        names = []
+        for k, _ in kw:
+            if k[0] != 'kw':
+                raise OOD('a mapping rule as an argument')
+            names.append(k[1])
+        if len(set(names)) != len(names):
+            raise OOD('repeated keyword')
+        rest = params[len(args):]
+        if len(args) > len(params) or any(n not in [p for p, _ in rest] for n in names):
+            raise NoMatchingMethodException(f)             # no parameter of that name (left)
+        given = [p for p, _ in rest if p in names]
+        if [p for p, _ in rest[:len(given)]] != given:
+            raise OOD('a parameter left out in between')
+        if given != names and not all(lazy for p, lazy in rest if p in names):
+            raise OOD('eager keyword arguments written in another order than the parameters')
+        values = dict((k[1], v) for k, v in kw)
+        return list(args) + [values[p] for p in given]
 
     def apply(self, body, defining, args, kwargs=None):
         """a lambda: `$1..$n` (and `$name`) are published into a child of the context the lambda
@@ -358,7 +412,7 @@ class Interp:
 
     def hashable(self, k):
         if isinstance(k, Lazy):
-            raise TypeError('unhashable')
+            return                      # an iterator object is hashed by identity (finalising it as a KEY fails later)
         if isinstance(k, tuple):
             for x in k:
                 self.hashable(x)
@@ -395,7 +449,9 @@ class Interp:
         if isinstance(x, FD):
             return x.d[name]
         if is_iterable(x):
-            raise OOD('nested projection')
+            # "Retrieves the value of an attribute for each element in a collection": the element is a collection itself,
+            # so `element.name` is again the (lazy) projection of ITS elements - whatever kinds the neighbours are of
+            return self.member(x, name)
         raise NoFunctionRegisteredException('#property#' + name)
 
     # ------------------------------------------------------------ functions
@@ -690,10 +746,10 @@ def _named(name):
     return cls(name)
 
 
-def run(doc, e, max_steps=200000, def_as_implemented=False):
+def run(doc, e, max_steps=200000, def_as_implemented=False, env=None):
     """-> ('ok', finalised) | ('ctx',) | ('err', class name) | ('ood', why)"""
     try:
-        r = Interp(max_steps, def_as_implemented).run(doc, e)
+        r = Interp(max_steps, def_as_implemented).run(doc, e, env)
         if r[0] == 'ctx':
             return ('ctx',)
         return ('ok', r[1])
